@@ -63,6 +63,18 @@ CLAIMED = {
         note="Trusted: rustc MIR; Vec::into_iter order.",
         technique="static analysis: MIR natural loops, dominance and within-pass ordering, value-origin slices (A4/A13)",
     ),
+    "C10": dict(
+        text="Decides the mechanisms of forward-reference resolution: at every get_element call site an unknown reference ends in an Err exit (never in a normal result); every update_element(E) is dominated by the successful evaluation/generation of E and, in process_tags, a tag is registered in the very pass that evaluates it (no pre-registration of later siblings); a failed attempt restores the depth counter and the variable scope; the retry loop leaves with an error when no element makes progress and output is ordered by document index. The early registration of the unresolved element is reported as known finding F16. Coordinate invariance under sibling permutations (values of the fix-point) is not decided.",
+        design_ref="DESIGN.md section 4 C10",
+        note="Trusted: rustc MIR. Known finding F16 (order-dependent geometry through early registration).",
+        technique="static analysis: Option-fate analysis on get_element results (A6), MIR dominance on registration sites and loop co-location (A10/A13), shared pairing rules (A5)",
+    ),
+    "C20": dict(
+        text="Decides the consistency mechanisms of auto-styles: injection is control-dependent on root-present && add_auto_styles and unreachable for real SVG; every rule emitted under has_class(K) selects .K (literal, formatted pattern or table row), templates decoded from the fmt::Arguments byte encoding; every url(#X) in a template has exactly one id=\"X\" emitted by the same generator with the same literal/variable, ids are distinct, the arrow marker is defined iff referenced, pattern ids derive injectively from the class, emitted rules/definitions are never rewritten afterwards; the class/element collection visits every Start/Empty event unconditionally; DARK_COLOURS is a duplicate-free subset of COLOUR_LIST. The exhaustive sweep over the class vocabulary x themes is not decided.",
+        design_ref="DESIGN.md section 4 C20",
+        note="Trusted: rustc HIR/MIR; the documented fmt template encoding.",
+        technique="static analysis: typed-HIR guard/template extraction with format-template decoding (A14/A16), MIR control dependence and loop must-pass (A13), who-may-write (A10)",
+    ),
     "C06": dict(
         text="Decides the absence of order- and environment-dependent constructs: every iteration (or Debug rendering) of a HashMap/HashSet is followed to an order-insensitive consumer or a reviewed table line; clock/env/pid/unseeded-RNG calls occur only under use_local_styles and the randomised id is reset whenever local styles are off; the single Pcg32 is seeded from config.seed, reseeded only by set_config and consumed only by random()/randint(); output is merged through a BTreeMap<OrderIndex,_>. This is the whole mechanism behind the property; cross-platform floating point is outside the statement.",
         design_ref="DESIGN.md section 4 C06",
@@ -89,10 +101,8 @@ NOT_APPLICABLE = {
         "C04": "planned: pass-through filter; acceptance of the SVG grammars is a language-inclusion question, not a shape property",
         "C08": "planned: guarded root inserts; the extent value is numeric",
         "C09": "selection-table wiring only would be decidable; placement arithmetic is numeric",
-        "C10": "planned: unknown-ref -> error, registration discipline; permutation invariance is a value statement",
         "C11": "planned: attribute hygiene per shape; constraint solving is numeric",
         "C12": "planned: attribute hygiene and branch wiring; enclosure is numeric",
         "C13": "planned: attribute hygiene and route structure; distances are numeric",
-        "C20": "planned: injection gating, guard/selector agreement, url/id closure",
     }.items()
 }
